@@ -151,12 +151,15 @@ def check_standalone_batch(case):
         T.grid_range_or_discard(r["east"], r["north"])
         lib = cv.grid2geo(r["zone"], r["east"], r["north"], "south")
         T.grid_domain_or_discard(dict(r, prj="utm", ell="grs80"), lib[0], lib[1])
-        rows.append((("P%d" % i), r, lib))
+        # point identifiers as users write them: not sorted, not necessarily unique, some with blanks or commas (quoted by csv)
+        ids = case.get("ids") or []
+        name = ids[i % len(ids)] if ids else "P%d" % i
+        rows.append((name, r, lib))
     fn = os.path.join(os.getcwd(), "batch_in.csv")
     with open(fn, "w", newline="") as fh:
         w = csv.writer(fh)
-        for name, r, lib in rows:
-            w.writerow([name, r["zone"], repr(r["east"]), repr(r["north"])])
+        for k, (name, r, lib) in enumerate(rows):
+            w.writerow([name, r["zone"] if k % 2 else float(r["zone"]), repr(r["east"]), repr(r["north"])])
     out = fn[:-4] + "_out.csv"
     if os.path.exists(out):
         os.remove(out)
@@ -182,8 +185,11 @@ def check_standalone_batch(case):
 
 def check_band_rejected(case):
     cv = repo.mod("geodepy.convert")
+    lat_o, lon_o, lat, lon = T.geo_args(case)
+    if -80.0 <= lat <= 84.0:
+        raise Discard()      # the notation round trip brought the latitude back onto the band limit
     try:
-        r = T.call_geo2grid(cv, case, case["lat"], case["lon"])
+        r = T.call_geo2grid(cv, case, lat_o, lon_o)
     except ValueError:
         return
     raise Fail("forward conversion accepted a latitude outside [-80, 84]", expected="ValueError", observed=r)
@@ -215,10 +221,11 @@ _fn1e7 = st.one_of(st.just("utm"), T.custom_projection().map(lambda p: dict(p, f
 _utm_grs80_south = T.grid_cases(prj_strategy=st.just("utm"), ell_strategy=st.just("grs80")).map(
     lambda c: dict(c, hemi="south", north=(c["north"] if c["hemi"] == "south" else 10000000.0 - c["north"])))
 
-_outside_band = st.fixed_dictionaries({
-    "lat": st.one_of(S.floats(84.0, 90.0).filter(lambda v: v > 84.0), S.floats(-90.0, -80.0).filter(lambda v: v < -80.0),
-                     st.sampled_from([84.00000001, -80.00000001, 90.0, -90.0])),
-    "lon": S.floats(-180.0, 179.0), "zone": st.just(0), "ell": st.sampled_from(S.SHIPPED_ELLIPSOIDS), "prj": st.just("utm")})
+_lat_outside = st.one_of(S.floats(84.0, 90.0).filter(lambda v: v > 84.0), S.floats(-90.0, -80.0).filter(lambda v: v < -80.0),
+                         st.sampled_from([84.00000001, -80.00000001, 90.0, -90.0, 85.0, -81.0]))
+# every way of asking for a conversion (automatic / explicit zone, UTM / ISG / custom projection, any ellipsoid, floats, ints,
+# angle objects, defaults left out), with the latitude replaced by one outside the band
+_outside_band = st.builds(lambda c, lat: dict(c, lat=lat), T.geo_cases(), _lat_outside)
 
 SUBCHECKS = [
     SubCheck("geo_grid_geo", check_geo_roundtrip, strategy=T.geo_cases(kinds=False), nontrivial=_nt_geo,
@@ -234,9 +241,12 @@ SUBCHECKS = [
              classes=_cls_grid, quick=2000, thorough=160000, shards_quick=2, shards_thorough=8,
              rule="Standalone/mga2gda.grid2geo vs library, southern UTM / GRS80, 1e-10 deg"),
     SubCheck("standalone_batch_file", check_standalone_batch,
-             strategy=st.lists(_utm_grs80_south, min_size=1, max_size=5).map(lambda rows: {"rows": rows}),
+             strategy=st.builds(lambda rows, ids: {"rows": rows, "ids": ids},
+                                st.one_of(st.lists(_utm_grs80_south, min_size=1, max_size=5), st.lists(_utm_grs80_south, min_size=6, max_size=40)),
+                                st.one_of(st.just([]), st.lists(st.sampled_from(["B7", "A1", "ALIC", "pt 3", "10", "9", "x,y", "A1"]),
+                                                                min_size=1, max_size=6))),
              nontrivial=lambda c: any(_nt_grid(r) for r in c["rows"]), quick=300, thorough=20000, shards_quick=2, shards_thorough=8,
              rule="CSV rows through Standalone/mga2gda.grid2geoio: output rows parse back to the library's latitude / longitude within 1e-10 deg"),
-    SubCheck("band_rejected", check_band_rejected, strategy=_outside_band, quick=200, thorough=2000, shards_thorough=1,
+    SubCheck("band_rejected", check_band_rejected, strategy=_outside_band, classes=T.tm_classes, quick=600, thorough=20000, shards_thorough=4,
              rule="latitudes outside [-80, 84] raise ValueError (stated in the quantifier)"),
 ]
